@@ -20,6 +20,9 @@ EXPLANATION = (
     "applied (R8.3). A cell whose outcome is not False is a violation keyed engine/op/position/kind. Also: BinOp guard "
     "(R8.4) and helper functions skipping missing fields (R8.5). NOT decided: stream-level consequences beyond 'match "
     "never raises', helper behaviour on present-but-None values."
+    " Also decided (rule added after the fifth blind round): (R8.7) arithmetic / bit operators on a missing field give the sentinel again in both engines - "
+    "the sentinel class defines every binary operator method, its reflected twin and the unary ones, each returning the sentinel, and the interpreted BinOp "
+    "guard returns the sentinel rather than False - so a comparison with the result is false and does not raise."
 )
 RULE_SUMMARY = ("the table is enumerated exhaustively (ops x positions x kinds x engines); a cell is non-trivial when its "
                 "outcome required evaluating a source method or a lambda body; distinct = distinct cells")
@@ -452,6 +455,42 @@ def run(ctx):
         ctx.check(len(operands) == len(c.args) and not reach, "R8.4", "RecordContextMatcher._eval:BinOp:apply",
                   f"the operator application is reachable when {reach or 'an operand'} is the sentinel: an arithmetic/bit operator applied to a missing field raises TypeError "
                   "instead of evaluating to False", c, f"not reachable with {operands} being a {sent_cls_name}")
+
+    # ------------------------------------------------------------------ R8.7 arithmetic on a missing field
+    ctx.rule("R8.7", "a comparison whose operand is computed from a missing field (`r.missing % 2 == 0`, `r.missing & 4 == 4`) is false and does not raise: the "
+                     "sentinel class defines every binary arithmetic / bit operator method with its reflected twin and the unary ones, each returning the sentinel "
+                     "itself (the compiled engine is plain Python: without them the operator raises TypeError, which ends the source in record_stream); the "
+                     "interpreted BinOp guard returns the sentinel too (a `False` there compares EQUAL to 0)")
+    arith = []
+    for stem in ("add", "sub", "mul", "truediv", "floordiv", "mod", "pow", "lshift", "rshift", "and", "or", "xor"):
+        arith += [f"__{stem}__", f"__r{stem}__"]
+    arith += ["__neg__", "__pos__", "__invert__"]
+    n_ar = 0
+    for m in arith:
+        found = ev.lookup(sent_ref, m)
+        if found[0] != "src":
+            ctx.fail("R8.7", f"{sent_cls_name}.{m}", f"the sentinel class does not define {m}: in the compiled engine `r.missing {m.strip('_')} x` raises TypeError (the rest of the "
+                     "source is dropped by record_stream) instead of making the enclosing comparison false", sent_ref.node, key="R8.7:sentinel-lacks-arithmetic")
+            continue
+        fn7 = found[1]
+        n_ar += 1
+        me7 = func_params(fn7)[0] if func_params(fn7) else None
+        rets7 = [r for r in walk_no_nested(fn7) if isinstance(r, ast.Return)]
+        ctx.check(bool(rets7) and all(r.value is not None and norm(r.value) in (me7, sent_name) for r in rets7), "R8.7", f"{sent_cls_name}.{m}",
+                  f"{m} of the sentinel returns {[norm(r.value) if r.value is not None else None for r in rets7]}, not the sentinel", fn7, "returns the sentinel itself",
+                  key=f"R8.7:{sent_cls_name}.{m}:not-absorbing")
+    # the interpreted guard: what is returned when an operand is the sentinel
+    gcfg7 = cfg
+    for rn7 in [n for n in gcfg7.stmt_nodes() if isinstance(n.ast, ast.Return) and any(n.ast is x for s0 in binop.body for x in ast.walk(s0))]:
+        facts7 = [(t, p) for t, p, _ in gcfg7.facts_at(rn7.id)]
+        under_sentinel = any(p and sent_cls_name in t and "isinstance" in t for t, p in facts7)
+        if not under_sentinel:
+            continue
+        v7 = rn7.ast.value
+        ok7 = v7 is not None and (norm(v7) == sent_name or (isinstance(v7, ast.Name) and any(p and f"isinstance({v7.id}, {sent_cls_name})" == t for t, p in facts7)))
+        ctx.check(ok7, "R8.7", "RecordContextMatcher._eval:BinOp:guard-value", f"with a missing operand the interpreted BinOp yields `{norm(v7) if v7 is not None else None}`: a constant such as "
+                  "False takes part in the enclosing comparison as a number (`r.missing % 2 == 0` is True for a record that lacks the field)", rn7.ast,
+                  f"returns {sent_name}", key="R8.7:_eval:BinOp:guard-returns-value")
 
     # ------------------------------------------------------------------ R8.5 helpers skip missing fields
     ctx.rule("R8.5", "helper functions that loop over field names read the field with the sentinel default and skip it "
